@@ -293,6 +293,28 @@ fn node_edits(s: &Spec, include_sms_name: bool) -> Vec<(&'static str, Spec)> {
         }
       }
       out.push(("construction style (no observable change)", Spec::Concat { how: (*how + 1) % 3, children: children.clone() }));
+      // re-bracketing: the next sibling moves into the ConcatSource at the bottom of the preceding child
+      // (reached through ReplaceSource / Box layers), i.e. one child changes its parent
+      for i in 0..children.len().saturating_sub(1) {
+        fn append_into(s: &Spec, extra: &Spec) -> Option<Spec> {
+          match s {
+            Spec::Concat { how, children } => {
+              let mut c = children.clone();
+              c.push(extra.clone());
+              Some(Spec::Concat { how: *how, children: c })
+            }
+            Spec::Replace { inner, repls } => append_into(inner, extra).map(|i| Spec::Replace { inner: Box::new(i), repls: repls.clone() }),
+            Spec::Boxed(inner) => append_into(inner, extra).map(|i| Spec::Boxed(Box::new(i))),
+            _ => None,
+          }
+        }
+        if let Some(merged) = append_into(&children[i], &children[i + 1]) {
+          let mut c = children.clone();
+          c[i] = merged;
+          c.remove(i + 1);
+          out.push(("re-bracketing: next sibling moved into the preceding child's ConcatSource", Spec::Concat { how: *how, children: c }));
+        }
+      }
     }
     Spec::Replace { inner, repls } => {
       for i in 0..repls.len() {
